@@ -606,7 +606,10 @@ is_default_constructible(CPPVisibility min_vis) const {
   for (di = _derivation.begin(); di != _derivation.end(); ++di) {
     CPPStructType *base = (*di)._base->as_struct_type();
     if (base != nullptr) {
-      if (!base->is_default_constructible(V_protected)) {
+      // The constructor also needs the destructor of every subobject, to
+      // clean up in case of an exception.
+      if (!base->is_default_constructible(V_protected) ||
+          !base->is_destructible(V_protected)) {
         return false;
       }
     }
@@ -628,7 +631,8 @@ is_default_constructible(CPPVisibility min_vis) const {
       continue;
     }
 
-    if (!instance->_type->is_default_constructible()) {
+    if (!instance->_type->is_default_constructible() ||
+        !instance->_type->is_destructible()) {
       return false;
     }
 
@@ -692,7 +696,8 @@ is_copy_constructible(CPPVisibility min_vis) const {
   for (di = _derivation.begin(); di != _derivation.end(); ++di) {
     CPPStructType *base = (*di)._base->as_struct_type();
     if (base != nullptr) {
-      if (!base->is_copy_constructible(V_protected)) {
+      if (!base->is_copy_constructible(V_protected) ||
+          !base->is_destructible(V_protected)) {
         return false;
       }
     }
@@ -709,7 +714,8 @@ is_copy_constructible(CPPVisibility min_vis) const {
       continue;
     }
 
-    if (!instance->_type->is_copy_constructible()) {
+    if (!instance->_type->is_copy_constructible() ||
+        !instance->_type->is_destructible()) {
       return false;
     }
   }
